@@ -9,17 +9,39 @@
 pub struct DbOptions {}
 //@struct src/versioning/version.rs :: Version keep: db_options files
 
+//@include specs/common/fm_keys.vs
 pub open spec fn fm_small_user(f: &FileMetadata) -> Seq<u8> { f.smallest_key.unwrap().user_key@ }
 pub open spec fn fm_large_user(f: &FileMetadata) -> Seq<u8> { f.largest_key.unwrap().user_key@ }
+/// both bounds are set and smallest <= largest in the internal-key order
 pub open spec fn file_bounded(f: &FileMetadata) -> bool {
-    f.smallest_key.is_some() && f.largest_key.is_some() && lex_le(fm_small_user(f), fm_large_user(f))
+    f.smallest_key.is_some() && f.largest_key.is_some() && ik_le(fm_smallest(f), fm_largest(f))
 }
-/// A level >= 1: files ordered and pairwise disjoint by user key.
+/// A level >= 1 as VersionBuilder::maybe_add_file guarantees it: files ordered and pairwise
+/// disjoint in the INTERNAL-key order (two neighbouring files may share a boundary user key).
 pub open spec fn level_sorted_disjoint(fs: Seq<Arc<FileMetadata>>) -> bool {
     &&& forall|i: int| 0 <= i < fs.len() ==> file_bounded(&*#[trigger] fs[i])
-    &&& forall|i: int, j: int| 0 <= i < j < fs.len() ==> lex_lt(fm_large_user(&*#[trigger] fs[i]), fm_small_user(&*#[trigger] fs[j]))
+    &&& forall|i: int, j: int| 0 <= i < j < fs.len() ==> ik_lt(fm_largest(&*#[trigger] fs[i]), fm_smallest(&*#[trigger] fs[j]))
 }
 /// the user key lies in the file's user-key range
 pub open spec fn file_covers_user(f: &FileMetadata, u: Seq<u8>) -> bool {
     lex_le(fm_small_user(f), u) && lex_le(u, fm_large_user(f))
+}
+
+/// user-key consequences of the internal-key facts above
+pub proof fn lemma_file_bounded_users(f: &FileMetadata)
+    requires file_bounded(f)
+    ensures lex_le(fm_small_user(f), fm_large_user(f))
+{
+    lemma_ik_user_order(fm_smallest(f), fm_largest(f));
+    lemma_ik_eq(fm_smallest(f), fm_largest(f));
+    lemma_lex_eq(fm_small_user(f), fm_large_user(f));
+}
+pub proof fn lemma_level_users(fs: Seq<Arc<FileMetadata>>, i: int, j: int)
+    requires level_sorted_disjoint(fs), 0 <= i < j < fs.len()
+    ensures lex_le(fm_large_user(&*fs[i]), fm_small_user(&*fs[j])),
+        lex_le(fm_small_user(&*fs[i]), fm_large_user(&*fs[i])), lex_le(fm_small_user(&*fs[j]), fm_large_user(&*fs[j])),
+{
+    lemma_ik_user_order(fm_largest(&*fs[i]), fm_smallest(&*fs[j]));
+    lemma_file_bounded_users(&*fs[i]);
+    lemma_file_bounded_users(&*fs[j]);
 }
